@@ -66,6 +66,9 @@ class IrqMonitor:
             self.stats["resets"] = self.stats.get("resets", 0) + 1
             # (no return: a request may be delivered at the end of this very step)
         was_low_power = a["power"] != "running"
+        # a CPU that slept inside a handler (HALT as a handler instruction) and was woken in this step has executed the
+        # instruction it slept in front of - a RETI, say - before the boundary: both models wake and run in one step
+        woke_and_ran = was_low_power and b["power"] == "running" and (b["pc"] != a["pc"] or b["S"] != a["S"])
         V = self.V
         entry = False
         reti_then_entry = False
@@ -77,7 +80,8 @@ class IrqMonitor:
             s_before = (b["S"] + 5) & 0xFFFFF
         if b["S"] == ((s_before - 5) & 0xFFFFF) and b["pc"] in ((V, V + 1) if py else (V,)) and executed != OP_IR:
             entry = True
-        elif (not py and executed == OP_RETI and not was_low_power and b["pc"] == V and b["S"] == a["S"] and self.frames):
+        elif (not py and executed == OP_RETI and (not was_low_power or woke_and_ran) and b["pc"] == V and b["S"] == a["S"]
+              and self.frames):
             entry = True
             reti_then_entry = True
         if executed == OP_IR and not was_low_power and b["S"] == ((a["S"] - 5) & 0xFFFFF):
@@ -88,7 +92,7 @@ class IrqMonitor:
             return
 
         # ---------------- RETI (possibly followed, on Rust, by an immediate new entry) --------------------------
-        did_reti = executed == OP_RETI and not was_low_power and (not entry or reti_then_entry)
+        did_reti = executed == OP_RETI and (not was_low_power or woke_and_ran) and (not entry or reti_then_entry)
         mid = None
         if did_reti:
             self.stats["retis"] += 1
